@@ -73,6 +73,7 @@ func init() {
 		i, o := consumer(a[0], unhx(a[1]))
 		return i, o, ""
 	}
+	ops["json.edge"] = ops["json.consumer"]
 }
 
 // consumer runs one syntax-only path of the package on document d and the corresponding encoding/json path.
@@ -143,8 +144,39 @@ func consumer(which string, d []byte) (string, string) {
 		stream := append(append(append([]byte{'"'}, bytes.Repeat([]byte{'a'}, declongPad)...), '"', ' '), d...)
 		return f(json.NewDecoder(bytes.NewReader(stream))), f(stdjson.NewDecoder(bytes.NewReader(stream)))
 	}
+	if strings.HasPrefix(which, "decedge:") {
+		// framing by Decoder when byte k of the document is the first byte of the SECOND buffer fill: white space in front
+		// moves every token of d (literal, number, string, escape, structural byte) across the 32 KiB edge in turn
+		k, _ := strconv.Atoi(which[len("decedge:"):])
+		f := func(dec interface{ Decode(any) error }, mk func() any) string {
+			if dec.Decode(mk()) != nil {
+				return "0"
+			}
+			var r2 stdjson.RawMessage
+			if dec.Decode(&r2) != io.EOF {
+				return "0"
+			}
+			return "1"
+		}
+		stream := append(bytes.Repeat([]byte{' '}, decoderFill-k), d...)
+		var i, o strings.Builder
+		for _, mk := range []func() any{func() any { return new(stdjson.RawMessage) }, func() any { return new(any) }, func() any { return new(struct{}) },
+			func() any { return new([1]int) }, func() any { return new(bool) }} {
+			// only acceptance of the FRAMING is compared: a target that cannot hold the value fails in both libraries alike
+			i.WriteString(f(json.NewDecoder(bytes.NewReader(stream)), mk))
+			o.WriteString(f(stdjson.NewDecoder(bytes.NewReader(stream)), mk))
+		}
+		return i.String(), o.String()
+	}
 	panic("unknown consumer " + which)
 }
+
+// decoderFill: the Decoder reads 32 KiB at a time into its initial buffer
+const decoderFill = 32768
+
+var edgeDocs = []string{`true`, `false`, `null`, `[true]`, `[false,null]`, `{"a":null}`, `{"a":true,"b":false}`, `-12.5e+10`, `1234567890123`, `0`, `"abc"`,
+	`"a\"b\\"`, `"\u00e9\ud83d\ude00"`, `"é€😀"`, `[1,"x",null,true,{"k":[false]}]`, `{"key":"value","n":[1,2,3]}`, `[[[[null]]]]`, ` [ true , null ] `,
+	`tru`, `nul`, `fals`, `truee`, `[tru]`, `{"a":nul}`, `"abc`, `[1,`, `{"a"`}
 
 // declongPad + 3 bytes precede the second value: it starts right after a 32 KiB buffer fill
 var declongPad = 32768 - 3
@@ -194,6 +226,18 @@ func runC05(h *H) {
 			if i != oo {
 				h.Fail("json.consumer", []string{cc[0], hx([]byte(cc[1]))}, i, oo)
 			}
+		}
+	}
+	for _, doc := range edgeDocs {
+		for k := 0; k <= len(doc); k++ {
+			c := "decedge:" + strconv.Itoa(k)
+			i, oo := consumer(c, []byte(doc))
+			calls++
+			// op json.edge (no Lean model: oracle = encoding/json's Decoder on the same stream)
+			if i != oo {
+				h.Fail("json.edge", []string{c, hx([]byte(doc))}, i, oo)
+			}
+			h.Case("json.edge", []string{c, hx([]byte(doc))}, i, oo)
 		}
 	}
 	for _, k := range []string{"arr", "obj", "mix"} {
